@@ -59,11 +59,10 @@ func registerNatives(e *Engine) map[string]nativeFn {
 		v := vc.havocVal(st, c.Signature().Results().At(0).Type(), "now")
 		nanos := timeNanos(v)
 		vc.assume(st, rangeFact(nanos, types.Typ[types.Int64]))
-		vc.assume(st, mkCmp(">", nanos, mkInt(0)))
-		if vc.nowLast != nil {
-			vc.assume(st, mkCmp(">=", nanos, vc.nowLast))
-		}
-		vc.nowLast = nanos
+		vc.assume(st, mkAnd(mkCmp(">", nanos, mkInt(0)), mkCmp("<=", nanos, mkBig(pow2(62)))))
+		// the clock is part of the state ($now): monotone along every path
+		vc.assume(st, mkCmp(">=", nanos, vc.nowOf(st)))
+		st.heap[nowKey] = nanos
 		vc.note("native model: time.Now() returns a fresh instant, monotone along the path")
 		return v
 	}
@@ -144,6 +143,28 @@ func registerNatives(e *Engine) map[string]nativeFn {
 		fr.vc.note("native model: util.StringToBytes is content-preserving")
 		return fr.vc.strToBytes(st, scalarOf(args[0], nil))
 	}
+	// sync/atomic on integers: sequential load/store semantics (interleavings are not explored)
+	for _, tn := range []string{"Int64", "Int32", "Uint64", "Uint32"} {
+		bt := map[string]types.Type{"Int64": types.Typ[types.Int64], "Int32": types.Typ[types.Int32], "Uint64": types.Typ[types.Uint64], "Uint32": types.Typ[types.Uint32]}[tn]
+		n["sync/atomic.Add"+tn] = func(fr *Frame, st *State, args []Val, c *ssa.CallCommon, pos string) Val {
+			fr.vc.note("native model: sync/atomic operations are sequential loads/stores; interleavings are not explored")
+			p := asPtr(args[0], bt)
+			old := fr.vc.loadPtr(st, p, bt)
+			nv := fr.binop(token.ADD, bt, old, args[1], bt, st, pos)
+			fr.vc.storePtr(st, p, bt, nv)
+			return nv
+		}
+		n["sync/atomic.Load"+tn] = func(fr *Frame, st *State, args []Val, c *ssa.CallCommon, pos string) Val {
+			fr.vc.note("native model: sync/atomic operations are sequential loads/stores; interleavings are not explored")
+			return fr.vc.loadPtr(st, asPtr(args[0], bt), bt)
+		}
+		n["sync/atomic.Store"+tn] = func(fr *Frame, st *State, args []Val, c *ssa.CallCommon, pos string) Val {
+			fr.vc.note("native model: sync/atomic operations are sequential loads/stores; interleavings are not explored")
+			fr.vc.storePtr(st, asPtr(args[0], bt), bt, args[1])
+			return nil
+		}
+	}
+	registerSortNatives(e, n)
 	// sync primitives: no data effect (lock state is ghost, see contracts)
 	for _, f := range []string{"(*sync.Mutex).Lock", "(*sync.Mutex).Unlock", "(*sync.RWMutex).Lock", "(*sync.RWMutex).Unlock", "(*sync.RWMutex).RLock", "(*sync.RWMutex).RUnlock",
 		"(*sync.WaitGroup).Add", "(*sync.WaitGroup).Done", "(*sync.WaitGroup).Wait"} {
